@@ -32,6 +32,10 @@ B6X = '0x77ul'
 A4J = '0x115ul'
 B8J = '0x%xul' % sum(1 << i for i in (0, 1, 3, 4, 24, 25, 27, 28))
 JOINT = {'AFREE': A4J, 'AFIN': '0x2u', 'BFREE': B8J, 'BFIN': '0x4u'}
+# three leaf symbols: A over 2 states: a->p0, b->p0, c->p0, g(p0,p0)->p1 (p1 final); B over 3 states: a->r0, a->r1, b->r1, b->r2, c->r2,
+# g(r0,r0)->r0, g(r0,r1)->r0, g(r1,r1)->r0, g(r2,r2)->r0 (r0 final): a child of A is covered by three rules of B only jointly, so
+# that set-inclusion caches are consulted with 2-element subsets of an established 3-element set
+JOINT3 = {'AFREE': '0x%xul' % sum(1 << i for i in (0, 2, 4, 10)), 'AFIN': '0x2u', 'BFREE': '0x%xul' % sum(1 << i for i in (0, 1, 4, 5, 8, 9, 10, 13, 17)), 'BFIN': '0x1u'}
 
 def c07_configs(tier):
     out = []
@@ -44,6 +48,7 @@ def c07_configs(tier):
             out.append(pair(1, 2, [0, 0, 2], BFREE=B6X, **k))        # 12 bits
             if (enc, sel) != (0, 0) and (enc, sel) != (0, 1):        # (bottom-up upward: known finding C07-1 for rank 2 in A)
                 out.append(pair(2, 3, [0, 0, 2], **dict(JOINT, _time=1500, **k)))    # 14 bits
+                out.append(pair(2, 3, [0, 0, 0, 2], **dict(JOINT3, _time=1500, **k)))   # 15 bits
         out.append(pair(1, 1, [0, 0, 1], **k))                       # 8 bits
         out.append(pair(1, 1, [0, 0, 2], **k))                       # 8 bits
         out.append(pair(2, 1, [0, 1], **k))                          # 11 bits
